@@ -6,7 +6,7 @@ from . import c02
 import modelx as mx
 from modelx.core.errors import DeletedObjectError, FormulaError
 
-WEIGHTS = {"set_ref": 6, "del_ref": 1, "bases": 3, "new_space": 2, "new_cells": 1.5, "eval": 1, "sformula": 1, "del_cells": 0.3,
+WEIGHTS = {"set_ref": 6, "del_ref": 1, "bases": 3, "new_space": 2, "new_cells": 1.5, "eval": 1, "sformula": 1, "del_cells": 0.3, "rename_cells": 1.2,
            "set_formula": 0.3, "gc": 0.1}
 
 
@@ -17,6 +17,8 @@ def swarm(rng):
                 "p_sformula": rng.choice([0.3, 0.6]), "p_bases": rng.choice([0.5, 0.8]), "p_modelref": 0.1, "recalc": False,
                 "p_check": 0.0, "reload": rng.random() < 0.5, "reload_zip": rng.random() < 0.5,
                 "base_switch": rng.random() < 0.35})
+    if rng.random() < 0.15:
+        cfg.update({"gadget_two_bases": True, "n_steps": rng.choice([4, 10])})
     return cfg
 
 
@@ -175,7 +177,28 @@ class C10(PropBase):
         cfg = ctx.cfg
         run = history.Run(ctx, cfg, [RebindOracle()])
         if ctx.doc is None:
+            if cfg.get("gadget_two_bases"):
+                # a space with two bases that both define the cells a reference of the SECOND base points at: which object is
+                # "the corresponding cells" of the sub space changes when the first base's cells is renamed or deleted
+                def cells(space, name, v):
+                    return {"op": "new_cells", "space": space, "name": name, "is_cached": True,
+                            "formula": {"style": "lambda", "params": [["x", None]], "ret": ["bin", "*", ["p", "x"], ["c", v]]}}
+                rr = ctx.rng("gadget")
+                for op in ({"op": "new_space", "parent": "", "name": "A", "bases": []}, cells("A", "f", 10),
+                           {"op": "new_space", "parent": "", "name": "B", "bases": []}, cells("B", "f", 20),
+                           {"op": "set_ref", "space": "B", "name": "q", "value": {"t": "obj", "space": "B", "cells": "f"},
+                            "mode": rr.choice(["auto", "relative", "absolute"])},
+                           {"op": "new_space", "parent": "", "name": "C", "bases": ["A", "B"],
+                            "formula": rr.choice([None, {"params": [["i", None]], "ret": None, "probe": False}])}):
+                    run.step(op)
             run.generate(WEIGHTS, cfg["n_steps"], 0.0)
+            if cfg.get("gadget_two_bases"):
+                rr = ctx.rng("gadget-tail")
+                for op in (rr.choice([{"op": "rename_cells", "space": "A", "name": "f", "new": "w"},
+                                      {"op": "rename_cells", "space": "A", "name": "f", "new": "w"},
+                                      {"op": "del_cells", "space": "A", "name": "f", "how": "delattr"}]),
+                           {"op": "checkpoint", "extra": [], "final": True}):
+                    run.step(op)
         else:
             run.replay(ctx.doc["steps"])
         if cfg.get("reload"):
